@@ -548,8 +548,12 @@ fn add_ids(mathml: Element) -> Element {
             .unwrap()
             .as_millis() as usize
     };
+    #[cfg(mathcat_verif)]
+    let time = match crate::verif_hooks::env() { Some(env) => env.now_ms() as usize, None => time };
     let time_part = radix_fmt::radix(time, 36).to_string();
     let random_part = radix_fmt::radix(rand::random::<usize>(), 36).to_string();
+    #[cfg(mathcat_verif)]
+    let random_part = match crate::verif_hooks::env() { Some(env) => radix_fmt::radix(env.random_usize(), 36).to_string(), None => random_part };
     let prefix = "M".to_string() + &time_part[time_part.len() - 3..] + &random_part[random_part.len() - 4..] + "-"; // begin with letter
     add_ids_to_all(mathml, &prefix, 0);
     return mathml;
